@@ -17,14 +17,24 @@ namespace Txdbus.Obj
 
 abbrev Str := List Char
 
-/-- An exported object, abstractly: where it says it lives, the names of its interfaces in
-the order `getInterfaces()` yields them (repetitions possible), and an opaque token standing
-for "its readable properties, per interface" (property access itself is C17). -/
+/-- An exported object, abstractly: where it says it lives; its interfaces in the order
+`getInterfaces()` yields them (repetitions possible), each with an opaque token standing for
+the result of `getAllProperties(<that interface>)` - "the readable properties of the
+interface", whose exactness is property C17 (`getall_exact`); and whether those property values
+can be sent at all (`sendable = false`: collecting or marshalling them raises, e.g. a `u`
+property holding -1). -/
 structure Obj where
   path : Str
-  ifaces : List Str
-  payload : Nat
+  ifaces : List (Str × Nat)
+  sendable : Bool
   deriving DecidableEq, Repr, Inhabited
+
+/-- The interface names of an object. -/
+def Obj.ifaceNames (o : Obj) : List Str := o.ifaces.map Prod.fst
+
+/-- `getAllProperties(name)` is a function of the name: the same name carries the same token. -/
+def Obj.Consistent (o : Obj) : Prop :=
+  ∀ n t t', (n, t) ∈ o.ifaces → (n, t') ∈ o.ifaces → t = t' 
 
 /-- One call of the export API. -/
 inductive Op where
@@ -38,12 +48,12 @@ abbrev Elem := List Char
 /-- Object path as a list of elements; the root is `[]`. -/
 abbrev Path := List Elem
 
+/-- `[A-Za-z0-9_]` (ASCII only), on the code point. -/
+def elemCode (n : Nat) : Bool :=
+  (65 ≤ n && n ≤ 90) || (97 ≤ n && n ≤ 122) || (48 ≤ n && n ≤ 57) || n == 95
+
 /-- `[A-Za-z0-9_]` (ASCII only). -/
-def elemChar (c : Char) : Bool :=
-  ('A'.toNat ≤ c.toNat && c.toNat ≤ 'Z'.toNat) ||
-  ('a'.toNat ≤ c.toNat && c.toNat ≤ 'z'.toNat) ||
-  ('0'.toNat ≤ c.toNat && c.toNat ≤ '9'.toNat) ||
-  c == '_'
+def elemChar (c : Char) : Bool := elemCode c.toNat
 
 def validElem (e : Elem) : Bool := !e.isEmpty && e.all elemChar
 
@@ -109,12 +119,13 @@ def children (p : Path) (E : List Path) : List Elem :=
 
 /-- What one call does to the question "which object is visible at the text path `s`". -/
 def visibleStep (s : Str) (cur : Option Obj) : Op → Option Obj
-  | .export o => if o.path = s then some o else cur
+  | .export o => if o.sendable = true ∧ o.path = s then some o else cur
   | .unexport q => if q = s then none else cur
 
 /-- The object visible at `s` after the calls `h` (in order): the one exported there most
-recently, unless that path was unexported since.  (Unexporting a path that is not exported
-changes nothing.) -/
+recently, unless that path was unexported since.  An export call that fails (the object's
+properties cannot be announced) implies nothing, and neither does unexporting a path that is
+not exported. -/
 def exportedAfter (h : List Op) (s : Str) : Option Obj :=
   h.foldl (visibleStep s) none
 
